@@ -154,3 +154,8 @@ func init() {
 		emit(map[string]any{"sides": i(*sides), "n": *n, "counts": cnt, "out_of_range": bad})
 	}
 }
+
+func parseU(s string) uint64 {
+	v, _ := strconv.ParseUint(s, 10, 64)
+	return v
+}
